@@ -27,8 +27,12 @@ import (
 	"github.com/openfga/openfga/internal/verifharness/lib/rec"
 	sh "github.com/openfga/openfga/internal/verifharness/lib/storehist"
 	"github.com/openfga/openfga/pkg/server"
+	"github.com/openfga/openfga/pkg/server/commands"
 	"github.com/openfga/openfga/pkg/storage"
 )
+
+// property failures found while executing an operation (reported by the scenario)
+var propFails []string
 
 const root = "/tmp/c16"
 
@@ -72,13 +76,16 @@ type tupleSpec struct{ Obj, Rel, User string }
 func (t tupleSpec) String() string { return t.Obj + "#" + t.Rel + "@" + t.User }
 
 type opSpec struct {
-	Kind    string      // create seed delete get list wmodel rmodel lmodels wtuples readall changes check wasserts rasserts
+	Kind    string      // create seed delete get list listf wmodel rmodel lmodels wtuples readall changes check wasserts rasserts
 	Variant int         // wmodel, seed
 	ModelRef string     // rmodel / check / asserts: "", "shared", "ghost", "own:<i>"
 	Dels    []tupleSpec // wtuples
 	Wrs     []tupleSpec
 	Check   tupleSpec // check: Obj, Rel = b0..b2, User
 	Asserts []int     // wasserts: indices into the assertion catalogue
+	Filter  string    // listf: "self", "self+other", "all"
+	ByName  bool      // listf: also the name filter
+	Page    int       // listf: page size (1..3), tokens are followed
 }
 
 var objs = []string{"document:1", "document:2", "document:3"}
@@ -193,7 +200,11 @@ func genHistory(r *rec.Rand, w *rec.Writer) []opSpec {
 		case p < 19:
 			h = append(h, opSpec{Kind: "get"})
 		default:
-			h = append(h, opSpec{Kind: "list"})
+			if r.Bool() {
+				h = append(h, opSpec{Kind: "list"})
+			} else {
+				h = append(h, genListF(r))
+			}
 		}
 	}
 	// phase 2: no tuple writes any more (the query caches are allowed to serve earlier results)
@@ -206,6 +217,11 @@ func genHistory(r *rec.Rand, w *rec.Writer) []opSpec {
 		if i == deleteAt {
 			h = append(h, opSpec{Kind: "delete"})
 			w.Stat("gen_history_with_delete_store", 1)
+			// a deleted store must stay hidden under every filter combination and page size
+			for _, f := range []string{"self", "self+other", "all"} {
+				h = append(h, opSpec{Kind: "listf", Filter: f, ByName: r.Bool(), Page: r.Range(1, 3)})
+			}
+			h = append(h, opSpec{Kind: "get"})
 			continue
 		}
 		switch p := r.Intn(20); {
@@ -227,10 +243,18 @@ func genHistory(r *rec.Rand, w *rec.Writer) []opSpec {
 		case p < 19:
 			h = append(h, opSpec{Kind: "get"})
 		default:
-			h = append(h, opSpec{Kind: "list"})
+			if r.Bool() {
+				h = append(h, opSpec{Kind: "list"})
+			} else {
+				h = append(h, genListF(r))
+			}
 		}
 	}
 	return h
+}
+
+func genListF(r *rec.Rand) opSpec {
+	return opSpec{Kind: "listf", Filter: rec.Pick(r, []string{"self", "self+other", "all"}), ByName: r.Bool(), Page: r.Range(1, 3)}
 }
 
 // ---- running ------------------------------------------------------------------------------------------
@@ -241,6 +265,8 @@ type storeRun struct {
 	own     []string // real ids of the models written through the API
 	shared  string
 	ghost   string
+	ghostStore string // a store id that is never created
+	deleted bool
 	obs     []string // canonical per-store observations
 	canon   *sh.IDMap
 }
@@ -374,10 +400,16 @@ func exec(wd *world, s *storeRun, o opSpec, allStores []*storeRun) (string, func
 	case "delete":
 		_, err := wd.srv.DeleteStore(ctx, &openfgav1.DeleteStoreRequest{StoreId: s.id})
 		cls := sh.ErrClass(err)
+		if err == nil {
+			s.deleted = true
+		}
 		return fmt.Sprintf("delete -> %d", cls), func(ids *sh.IDMap) rec.V { return rec.L(rec.I(1), S(ids), rec.I(cls)) }
 	case "get":
 		res, err := wd.srv.GetStore(ctx, &openfgav1.GetStoreRequest{StoreId: s.id})
 		cls := sh.ErrClass(err)
+		if s.deleted && err == nil {
+			propFails = append(propFails, "deleted store is visible: GetStore answers for a deleted store")
+		}
 		return fmt.Sprintf("get -> %d %s", cls, res.GetName()), func(ids *sh.IDMap) rec.V {
 			return rec.L(rec.I(2), S(ids), rec.I(cls), rec.S(res.GetName()))
 		}
@@ -392,6 +424,9 @@ func exec(wd *world, s *storeRun, o opSpec, allStores []*storeRun) (string, func
 				listed = true
 			}
 		}
+		if s.deleted && listed {
+			propFails = append(propFails, "deleted store is visible: ListStores lists a deleted store")
+		}
 		return fmt.Sprintf("list -> %d self=%v", cls, listed), func(ids *sh.IDMap) rec.V {
 			c := make([]string, len(all))
 			for i, a := range all {
@@ -399,6 +434,92 @@ func exec(wd *world, s *storeRun, o opSpec, allStores []*storeRun) (string, func
 			}
 			sort.Strings(c)
 			return rec.L(rec.I(3), S(ids), rec.I(cls), rec.LS(c))
+		}
+	case "listf":
+		// ListStores with the IDs filter (what access control passes), through the command and
+		// through the datastore interface, following the continuation tokens
+		filter := []string{s.id}
+		other := s.ghostStore
+		if allStores != nil {
+			if o2 := allStores[(s.idx+1)%len(allStores)]; o2.id != "" {
+				other = o2.id
+			}
+		}
+		switch o.Filter {
+		case "self+other":
+			filter = append(filter, other)
+		case "all":
+			filter = []string{other, s.id, s.ghostStore}
+			if allStores != nil {
+				filter = nil
+				for _, o2 := range allStores {
+					if o2.id != "" {
+						filter = append(filter, o2.id)
+					}
+				}
+				filter = append(filter, s.ghostStore)
+			}
+		}
+		name := ""
+		if o.ByName {
+			name = "shared-name"
+		}
+		var viaCmd, viaDS []string
+		cls := 0
+		q := commands.NewListStoresQuery(wd.raw)
+		tok := ""
+		for page := 0; page < 30; page++ {
+			res, err := q.Execute(ctx, &openfgav1.ListStoresRequest{PageSize: wrapperspb.Int32(int32(o.Page)), ContinuationToken: tok, Name: name}, filter)
+			if err != nil {
+				cls = sh.ErrClass(err)
+				break
+			}
+			for _, st := range res.GetStores() {
+				viaCmd = append(viaCmd, st.GetId())
+			}
+			tok = res.GetContinuationToken()
+			if tok == "" {
+				break
+			}
+		}
+		from := ""
+		for page := 0; page < 30; page++ {
+			sts, next, err := wd.raw.ListStores(ctx, storage.ListStoresOptions{IDs: filter, Name: name, Pagination: storage.NewPaginationOptions(int32(o.Page), from)})
+			if err != nil {
+				cls = 99
+				break
+			}
+			for _, st := range sts {
+				viaDS = append(viaDS, st.GetId())
+			}
+			from = next
+			if from == "" {
+				break
+			}
+		}
+		if strings.Join(viaCmd, ",") != strings.Join(viaDS, ",") {
+			propFails = append(propFails, "ListStores through the command and through the datastore interface differ")
+		}
+		listed := false
+		for _, id := range viaCmd {
+			if id == s.id {
+				listed = true
+			}
+		}
+		if s.deleted && listed {
+			propFails = append(propFails, fmt.Sprintf("deleted store is visible: ListStores with IDs filter %q, name filter %v, page size %d lists a deleted store", o.Filter, o.ByName, o.Page))
+		}
+		return fmt.Sprintf("listf %s name=%v page=%d -> %d self=%v", o.Filter, o.ByName, o.Page, cls, listed), func(ids *sh.IDMap) rec.V {
+			f := make([]string, len(filter))
+			for i, a := range filter {
+				f[i] = ids.Canon(a)
+			}
+			c := make([]string, len(viaCmd))
+			for i, a := range viaCmd {
+				c[i] = ids.Canon(a)
+			}
+			sort.Strings(c)
+			return rec.L(rec.I(13), S(ids), rec.LS(f), rec.S(name), rec.I(cls), rec.LS(c))
 		}
 	case "wmodel":
 		vm := variantModels[o.Variant]
@@ -592,9 +713,11 @@ func scenario(w *rec.Writer, d desc) {
 	// (a) interleaved
 	wd := newWorld(d.Backend, d.Combo)
 	var runs [3]*storeRun
+	ghostStore := sh.NewULID()
 	for k := range runs {
-		runs[k] = &storeRun{idx: k, shared: shared, ghost: ghost}
+		runs[k] = &storeRun{idx: k, shared: shared, ghost: ghost, ghostStore: ghostStore}
 	}
+	propFails = nil
 	pos := [3]int{}
 	var mk []func(ids *sh.IDMap) rec.V
 	for _, k := range order {
@@ -616,8 +739,12 @@ func scenario(w *rec.Writer, d desc) {
 		w.Stat(strings.ReplaceAll(stat, " ", "_"), 1)
 	}
 	wd.close()
+	for _, pf := range propFails {
+		w.PropFail(pf, map[string]any{"desc": d, "run": "interleaved"})
+	}
 	// global canonical ids: stores by index, model ids by rank (the shared id is the oldest)
 	ids := sh.NewIDMap()
+	ids.Bind(ghostStore, "S9")
 	var allModels []string
 	for k, s := range runs {
 		ids.Bind(s.id, fmt.Sprintf("S%d", k))
@@ -636,12 +763,16 @@ func scenario(w *rec.Writer, d desc) {
 	// (b) each store alone
 	for k := 0; k < 3; k++ {
 		wd := newWorld(d.Backend, d.Combo)
-		s := &storeRun{idx: k, shared: shared, ghost: ghost}
+		s := &storeRun{idx: k, shared: shared, ghost: ghost, ghostStore: ghostStore}
+		propFails = nil
 		for _, o := range hs[k] {
 			obs, _ := exec(wd, s, o, nil)
 			s.obs = append(s.obs, obs)
 		}
 		wd.close()
+		for _, pf := range propFails {
+			w.PropFail(pf, map[string]any{"desc": d, "run": "alone", "store": k})
+		}
 		if len(s.obs) != len(runs[k].obs) {
 			w.PropFail("interleaved and isolated runs of a store have different lengths", map[string]any{"desc": d, "store": k})
 			continue
